@@ -474,7 +474,7 @@ func genOn(t *rapid.T, r *kit.Rec) OnCase {
 		for i, sch := range c.Schedules {
 			if c.lowMarkTrigger(msgs, sch) >= 0 {
 				r.Exclude(exLowMark)
-				c.Schedules[i] = c.generalFirstInGroup(msgs, sch)
+				c.Schedules[i] = generalFirstInGroupEv(c.events(msgs), sch)
 			}
 		}
 	}
@@ -492,6 +492,23 @@ func (c OnCase) twoParentGS() (general, specific int, ok bool) {
 	return 0, 1, true
 }
 
+// onEv is what the exclusion classes need to know about a message of a join with on(): its
+// on-group and its time rounded to the tolerance (stream points and batches alike).
+type onEv struct {
+	on string
+	t  int64
+}
+
+func (c OnCase) events(msgs [][]onMsg) [][]onEv {
+	ev := make([][]onEv, len(msgs))
+	for p := range msgs {
+		for _, m := range msgs[p] {
+			ev[p] = append(ev[p], onEv{m.on, m.t})
+		}
+	}
+	return ev
+}
+
 // tailTrigger: outer join, and a specific point that has no general partner is not older than the
 // last point of the general parent and the last point of the specific parent in its on-group
 // (rounded times; true also when the general parent has no point of the on-group at all).
@@ -500,21 +517,21 @@ func (c OnCase) tailTrigger(msgs [][]onMsg) bool {
 	if !ok || c.Fill == "" {
 		return false
 	}
-	type key struct {
-		g string
-		t int64
-	}
-	has := map[key]bool{}
+	return tailTriggerEv(c.events(msgs), gp, sp)
+}
+
+func tailTriggerEv(ev [][]onEv, gp, sp int) bool {
+	has := map[onEv]bool{}
 	lastG, lastS := map[string]int64{}, map[string]int64{}
-	for _, m := range msgs[gp] {
-		has[key{m.on, m.t}] = true
+	for _, m := range ev[gp] {
+		has[m] = true
 		lastG[m.on] = m.t
 	}
-	for _, m := range msgs[sp] {
+	for _, m := range ev[sp] {
 		lastS[m.on] = m.t
 	}
-	for _, m := range msgs[sp] {
-		if has[key{m.on, m.t}] {
+	for _, m := range ev[sp] {
+		if has[m] {
 			continue
 		}
 		lg, okg := lastG[m.on]
@@ -565,19 +582,25 @@ func (c *OnCase) closeOnGroups() {
 // message delivered at that position, the specific parent has already delivered an older (rounded)
 // time of that on-group, and the general parent will still deliver a point of it; -1 if none.
 func (c OnCase) lowMarkTrigger(msgs [][]onMsg, sched []int) int {
-	gp, sp, ok := c.twoParentGS()
+	gp, _, ok := c.twoParentGS()
 	if !ok || gp != 0 {
 		return -1
 	}
+	return lowMarkTriggerEv(c.events(msgs), sched)
+}
+
+// lowMarkTriggerEv: parent 0 is the general parent, parent 1 the specific one.
+func lowMarkTriggerEv(ev [][]onEv, sched []int) int {
+	const gp = 0
 	inGeneral := map[string]bool{}
-	for _, m := range msgs[gp] {
+	for _, m := range ev[gp] {
 		inGeneral[m.on] = true
 	}
 	next := make([]int, 2)
 	reported := map[string]bool{}
 	firstS := map[string]int64{}
 	for i, p := range sched {
-		m := msgs[p][next[p]]
+		m := ev[p][next[p]]
 		next[p]++
 		if p == gp {
 			reported[m.on] = true
@@ -591,16 +614,15 @@ func (c OnCase) lowMarkTrigger(msgs [][]onMsg, sched []int) int {
 			firstS[m.on] = m.t
 		}
 	}
-	_ = sp
 	return -1
 }
 
-// generalFirstInGroup repairs a schedule: wherever lowMarkTrigger fires, the general parent's
+// generalFirstInGroupEv repairs a schedule: wherever lowMarkTriggerEv fires, the general parent's
 // messages up to its first one of that on-group are delivered first (and skipped later).
-func (c OnCase) generalFirstInGroup(msgs [][]onMsg, sched []int) []int {
-	gp := 0
+func generalFirstInGroupEv(ev [][]onEv, sched []int) []int {
+	const gp = 0
 	for {
-		at := c.lowMarkTrigger(msgs, sched)
+		at := lowMarkTriggerEv(ev, sched)
 		if at < 0 {
 			return sched
 		}
@@ -609,11 +631,11 @@ func (c OnCase) generalFirstInGroup(msgs [][]onMsg, sched []int) []int {
 		for _, p := range sched[:at] {
 			next[p]++
 		}
-		on := msgs[sched[at]][next[sched[at]]].on
+		on := ev[sched[at]][next[sched[at]]].on
 		k := 0 // general messages to deliver in advance
-		for j := next[gp]; j < len(msgs[gp]); j++ {
+		for j := next[gp]; j < len(ev[gp]); j++ {
 			k++
-			if msgs[gp][j].on == on {
+			if ev[gp][j].on == on {
 				break
 			}
 		}
@@ -768,12 +790,19 @@ func runOn(c OnCase, cc *kit.Case) {
 	}
 }
 
-const onRule = "rapid: 2 parents of a stream join with on(): one grouped by the on() dimensions (1-2), one by 1-2 more (either order), 1-3 on-groups x 1-3 specific groups, time-ordered sequences with duplicates, gaps, lagging/silent parents x tolerance, fill none/null/number, delimiter, streamName x >=4 gated arrival schedules; " +
+const onRule = "rapid: 2 parents of a stream join with on(): one grouped by the 1-2 on() dimensions, one by 1-2 more (either order; 3 parents and equal dimension sets are known findings, excluded), 1-3 on-groups x 1-3 specific groups, time-ordered sequences with duplicates, gaps, lagging/silent parents x tolerance, fill none/null/number, delimiter, streamName x >=4 gated arrival schedules; " +
 	"oracle: schedule-independent reference from the JoinNode/On() documentation, outputs as multisets; non-trivial = a schedule in which one parent is >=3 messages ahead of another at some moment and >=1 general point joined with >=2 specific points; distinct by case hash"
 
 var onAssumptions = []string{
-	"every parent delivers its messages in non-decreasing time order (the property's premise); all parents end together (task drain)",
-	"on() names a subset of every parent's groupBy dimensions (doc: 'Join on a subset of the group by dimensions'); parents are either grouped by exactly the on() dimensions ('general') or all by the same superset ('specific'); two different supersets are not generated (the documentation says nothing about them)",
+	"JoinOn: every parent delivers its messages in non-decreasing time order (the property's premise); all parents end together (task drain)",
+	"JoinOn: on() names a subset of every parent's groupBy dimensions (doc: 'Join on a subset of the group by dimensions'); a parent is grouped either by exactly the on() dimensions ('general') or by the on() dimensions plus 1-2 more ('specific'); parents grouped by two different supersets are not generated (the documentation says nothing about them)",
+	"JoinOn (doc of On): a general point is joined with every specific point of its on-group and (tolerance-rounded) time, in every specific group; the joined point carries the specific point's group (tags and dimensions), the rounded time and the fields of both prefixed by the as() names",
+	"JoinOn (from join.go, the doc's premise is 'you only have one point per building'): when the general parent has several points with one on-group and rounded time, the first of them is the partner of all specific points of that on-group and time and the others are not used; every specific point makes its own joined point (two specific points of one group and rounded time both join with that general point)",
+	"JoinOn (from join.go, comment in matchPoints: 'Specific points may be sent to the joinset without a matching point, but not the other way around'): a general point without specific partner produces no output, also in an outer join; a specific point without general partner is dropped by an inner join and emitted with the fill value by an outer join",
+	"JoinOn (as in unit Join, doc of Fill and StreamName): fill field names are copied from the present point, the name is streamName or the name of the first present parent, the output tags are the group's tags",
+	"JoinOn (property statement applied where On's doc is silent): with equal dimension sets nobody has 'only the on() tags', so on() naming all or some of them is an ordinary join per common group; with 3 parents every general parent contributes its point to every joined point; these classes fail on the unchanged tree and are excluded by construction (known_findings_C12.json)",
+	"rounding to the tolerance uses Go's time.Round, as the documentation's 'rounded to the nearest multiple of the tolerance' (trusted stdlib)",
+	"schedule control is best effort: the harness feeds one message at a time and waits (bounded) for the node's collected counter; a missed gate only reduces schedule coverage because the oracle does not depend on the schedule",
 }
 
 func TestJoinOn(t *testing.T) {
